@@ -173,3 +173,24 @@ Example cli_roundtrip_nonvacuous :
   dec_Z 12 = ["1"%char; "2"%char] /\
   parse_wcs_arg ["A"%char; ","%char; " "%char] = Ok (WList [["A"%char]; [" "%char]]).
 Proof. repeat split; vm_compute; reflexivity. Qed.
+
+(* ------------------------------------------------------------------ *)
+(* `toasty tile-multi-tan` (cli.tile_multi_tan_impl), tied by TRANSLATION: Generated/CliMultiTanSrc.v
+   is produced from toasty/cli.py in /repo's working tree on every build; it makes the calls of the
+   hand-written model (Model/CliScript.v), in which the collection the tiler reads is built from the
+   paths, the --hdu-index selection and the --wcs-key selection the user gave.  Proofs in
+   Proofs/CliMultiTanP.v. *)
+From Coq Require Import String.
+From Toasty Require Import Model.SrcPrelude Model.CliScript Generated.CliMultiTanSrc Proofs.CliMultiTanP.
+
+Theorem src_tile_multi_tan_command_is_model :
+  forall (is_none : sval unit -> bool) (eq_lit : sval unit -> string -> bool) (is_true : sval unit -> bool),
+  run_tree is_none eq_lit is_true src_cli_tile_multi_tan_impl = tile_multi_tan_impl_model.
+Proof. exact src_tile_multi_tan_impl_eq. Qed.
+Print Assumptions src_tile_multi_tan_command_is_model.
+
+Theorem multi_tan_command_selection_reaches_the_collection :
+  mt_collection = SNewP "SimpleFitsCollection" [setting "paths"]
+                        [("hdu_index"%string, setting "hdu_index"); ("wcs_key"%string, setting "wcs_key")].
+Proof. reflexivity. Qed.
+Print Assumptions multi_tan_command_selection_reaches_the_collection.
